@@ -43,7 +43,7 @@ def gen_case(rnd, zone, now):
         en = st + rnd.choice([rnd.randrange(0, 90000), rnd.randrange(0, 90000), 0, 86400, rnd.randrange(0, 60) - st % 60, 60, 86340])
         # the enabled flag and the state byte are not part of what a listing reports: any byte value may stand there
         recs.append([rnd.choice([i, i, rnd.randrange(256), rnd.randrange(3)]), rnd.choice([0, 1, 1, 2, 255, rnd.randrange(256)]), mask, rnd.choice([0, 1, 1, 2, 0x80, 255, rnd.randrange(256)]), st % 2 ** 32, en % 2 ** 32,
-                     [rnd.randrange(256) for _ in range(4)]])
+                     rnd.choice([[0, 0, 0, 0], [0, 0, 0, 0], [rnd.randrange(256) for _ in range(4)], [rnd.randrange(256), 0, 0, 0], [255] * 4])])      # the four bytes a listing does not read: often all zero
     return {"zone": zone, "now": now, "recs": recs, "hdr": world.rand_bytes(rnd, 45).hex(), "tail": world.rand_bytes(rnd, 4).hex(), "cut": None}
 
 
@@ -91,8 +91,20 @@ def run_readback(out, stream, zone, rnd, n):
         m = rnd.randrange(128) if k >= 3 else [0, 0, 127][k]           # the one-time schedule (no days) and the full week are always there
         cases.append({"zone": zone, "now": now, "start": "%02d:%02d" % (rnd.randrange(24), rnd.randrange(60)),
                       "end": "%02d:%02d" % (rnd.randrange(24), rnd.randrange(60)), "days": [d for d in range(7) if m >> d & 1], "slot": rnd.randrange(8)})
+    # slots created in the week before the clocks change, for the change-over weekday (alone, or with the days after it), at times that day
+    # does not have or has twice - today has them once, and today's date is the one the record is stamped with
+    tz = zoneinfo.ZoneInfo(zone)
+    for t in rnd.sample(world.transitions_in(zone, 1_000_000_000, 2_100_000_000), min(3, len(world.transitions_in(zone, 1_000_000_000, 2_100_000_000)))):
+        lt = D.datetime.fromtimestamp(t - 1, tz); wd = lt.weekday(); base = lt.hour * 60 + lt.minute + 1
+        for k in (1, 2, 6):
+            now = t - k * 86400 + rnd.randrange(-7200, 7200)
+            for off in (rnd.randrange(0, 30), rnd.randrange(30, 60), rnd.randrange(-60, 0)):
+                a = (base + off) % 1440; b = (a + rnd.choice([30, 60, 600])) % 1440
+                if rnd.random() < .3: a, b = b, a
+                cases.append({"zone": zone, "now": now, "start": "%02d:%02d" % divmod(a, 60), "end": "%02d:%02d" % divmod(b, 60),
+                              "days": sorted({wd} | ({(wd + 1) % 7} if rnd.random() < .4 else set())), "slot": rnd.randrange(8)})
     res = world.zone_job(zone, "create_readback", cases)
-    tz = zoneinfo.ZoneInfo(zone); io = []; ex = []
+    io = []; ex = []
     for c, r in zip(cases, res):
         io.append(r.get("listed", "create raised"))
         # judged only when both wall-clock times exist today and are unambiguous (C11's domain)
